@@ -372,11 +372,13 @@ def step (s : State) (toks : List String) : State × String :=
         (s, guard s!"text=[_{body}_]")
       | "clone_from", _ => (s, guard (showSpec rs))
       | "into_tensor", rn :: cn :: _ =>
-        if rn = cn then (s, guard "err")
-        else
-          let a := s!"shape={rn}:{Rows.nrows rs},{cn}:{Rows.ncols rs} data={showNats rs.flatten}"
-          (s, if st.m.data = rs.flatten then guard a
-              else s!"{a} ## MODEL-SPEC-DISAGREE data={showNats st.m.data}")
+        let spec := if rn = cn then "err"
+          else s!"shape={rn}:{Rows.nrows rs},{cn}:{Rows.ncols rs} data={showNats rs.flatten}"
+        let model := match st.m.intoTensorRows rn cn with
+          | .ok (some t) => s!"shape={showShape t.shape} data={showNats t.data}"
+          | .ok none => "err"
+          | .panic k => s!"panic({k})"
+        (s, if spec = model then guard spec else s!"{spec} ## MODEL-SPEC-DISAGREE {model}")
       | "matrix_ref", r :: c :: _ =>
         match r.toNat?, c.toNat? with
         | some r, some c =>
@@ -406,11 +408,14 @@ def step (s : State) (toks : List String) : State × String :=
     | none, _, _, _ => (s, "no-matrix")
     | some st, some r, some c, some v =>
       let op : Matrix.Op Nat := .set r c v
-      if Rows.pre st.rs op then
-        let res := Matrix.exec st.m op
+      -- model: `Matrix.trySet` (MatrixMut::try_get_reference_mut); spec: a write inside, `none` outside
+      match Matrix.trySet st.m r c v, Rows.pre st.rs op with
+      | some m', true =>
         let rs' := Rows.next st.rs op
-        (some ⟨res.state, rs'⟩, "some " ++ answer false rs' res)
-      else (s, "none " ++ answer false st.rs ⟨st.m, none⟩)
+        (some ⟨m', rs'⟩, "some " ++ answer false rs' ⟨m', none⟩)
+      | none, false => (s, "none " ++ answer false st.rs ⟨st.m, none⟩)
+      | some m', false => (s, s!"none ## MODEL-SPEC-DISAGREE some {showModel m'}")
+      | none, true => (s, "some ## MODEL-SPEC-DISAGREE none")
     | _, _, _, _ => (s, "bad-op")
   | "accepts" :: sl :: nS :: _ =>
     match parseSlice sl.toList, nS.toNat? with
